@@ -268,8 +268,8 @@ pub fn run(run: &mut Run) {
         (HistCfg { seeds: vec!["basic"], alphabet: core.clone(), depth: 2 }, 2, if thorough { 4 } else { 3 }, small_new.clone(), "core"),
     ];
     if thorough {
-        plans.push((HistCfg { seeds: all_seeds.clone(), alphabet: full.clone(), depth: 2 }, 2, 4, small_new.clone(), "full"));
-        plans.push((HistCfg { seeds: vec!["basic"], alphabet: core.clone(), depth: 3 }, 3, 4, vec![core[0].clone()], "core"));
+        plans.push((HistCfg { seeds: vec!["basic"], alphabet: full.clone(), depth: 2 }, 2, 3, vec![core[0].clone(), core[22].clone()], "full"));
+        plans.push((HistCfg { seeds: vec!["basic"], alphabet: core.clone(), depth: 3 }, 3, 3, vec![core[0].clone()], "core"));
     }
     let mut outcomes = std::collections::HashSet::new();
     let mut bounds = vec![];
@@ -296,7 +296,7 @@ pub fn run(run: &mut Run) {
         }
         bounds.push(json!({"alphabet": name, "alphabet_size": cfg.alphabet.len(), "forward_length": len, "undo_redo_words_up_to": ur_max,
             "new_ops_after_partial_undo": new_ops.len(), "seeds": cfg.seeds, "forward_histories_ok": st.words, "executions": runs}));
-        if run.elapsed() > if thorough { 3000.0 } else { 100.0 } {
+        if run.elapsed() > if thorough { 3000.0 } else { 600.0 } {
             run.cap_hit = Some(format!("wall clock after plan {} len {}", name, len));
             break;
         }
